@@ -77,7 +77,7 @@ impl Property for C13 {
         "C13"
     }
     fn rule(&self) -> String {
-        "case = (text kind, bound/unbound, set A, set B) of ranges over a 16-codepoint text; every case is evaluated under all 92 operator/modifier combinations (12 relations x all x negate x limit{None,0,1,3} / whitespace) through every entry point (TextSelection::test/test_set, TextSelectionSet::test/test_set, ResultTextSelection::test/test_set, ResultTextSelectionSet::test/test_set, ResultItem<Annotation>::test) against interval-arithmetic definitions, plus converse/symmetry/implication/complement/singleton laws on the implementation's own answers. Enumerated part: all pairs of ranges 0<=b<=e<=N and all pairs of duplicate-free sets up to the stated size; random part: sets of size<=4 over N<=14. Non-trivial = the case is in the relation for at least one positive operator and out for another; distinct = distinct case JSON.".into()
+        "case = (text kind, bound/unbound, set A, set B) of ranges over a 16-codepoint text; every case is evaluated under all 92 operator/modifier combinations (12 relations x all x negate x limit{None,0,1,3} / whitespace) through every entry point (TextSelection::test/test_set, TextSelectionSet::test/test_set, ResultTextSelection::test/test_set, ResultTextSelectionSet::test/test_set, ResultItem<Annotation>::test/test_textselectionset/test_textselection) against interval-arithmetic definitions, plus converse/symmetry/implication/complement/singleton laws on the implementation's own answers. Enumerated part: all pairs of ranges 0<=b<=e<=N and all pairs of duplicate-free sets up to the stated size; random part: sets of size<=4 over N<=14. Non-trivial = the case is in the relation for at least one positive operator and out for another; distinct = distinct case JSON.".into()
     }
     fn assumptions(&self) -> Vec<String> {
         vec![
@@ -324,6 +324,17 @@ impl Property for C13 {
                 match catch(|| aa.test(&sop, &ab)) {
                     Ok(v) => results.push(("ResultItem<Annotation>::test", v)),
                     Err(_) => out.fail("panic", format!("{}|{}|annotation.test", opsig, shp), format!("ResultItem<Annotation>::test panicked for {:?} A={:?} B={:?}", sop, a, b)),
+                }
+                // the same question with the right-hand side given as a set / as a single selection
+                match catch(|| aa.test_textselectionset(&sop, &setb)) {
+                    Ok(v) => results.push(("ResultItem<Annotation>::test_textselectionset", v)),
+                    Err(_) => out.fail("panic", format!("{}|{}|annotation.test_textselectionset", opsig, shp), format!("ResultItem<Annotation>::test_textselectionset panicked for {:?} A={:?} B={:?}", sop, a, b)),
+                }
+                if b.len() == 1 {
+                    match catch(|| aa.test_textselection(&sop, &rb[0])) {
+                        Ok(v) => results.push(("ResultItem<Annotation>::test_textselection", v)),
+                        Err(_) => out.fail("panic", format!("{}|{}|annotation.test_textselection", opsig, shp), format!("ResultItem<Annotation>::test_textselection panicked for {:?} A={:?} b={:?}", sop, a, b)),
+                    }
                 }
             }
             // --- compare with the definition
